@@ -1364,6 +1364,46 @@ static void judge_header(Rng &r, const std::string &header, bool absent = false)
   }
   else
     R.count("headers_judged_exactly");
+  // Set / Delete on the extracted baggage, which - unlike one built through Set - may bind a key more than once
+  // (extraction keeps every valid member): "Set replaces an existing key, Delete removes it, and neither changes
+  // the baggage they were called on" (from seeded change C15-w5-1)
+  {
+    const Entry pick  = got[r.below(got.size())];
+    const std::string k = pick.first;
+    size_t bindings   = 0;
+    List rest;
+    for (auto &e : got)
+      if (e.first == k)
+        ++bindings;
+      else
+        rest.push_back(e);
+    std::string cls = bindings > 1 ? "extracted:repeated-key" : "extracted:single-binding";
+    R.count(bindings > 1 ? "ops_on_extracted_repeated_key" : "ops_on_extracted_single_binding");
+    auto sb   = out_b->Set(k, "nv;m=1");
+    List sgot = entries(*sb);
+    size_t hits = 0;
+    List srest;
+    for (auto &e : sgot)
+      if (e.first == k)
+      {
+        ++hits;
+        if (e.second != "nv;m=1")
+          R.violation("set-result", cls, "Set(" + vf::show(k, 60) + ") on the extracted baggage left value " + vf::show(e.second, 60) + "; " + hshow);
+      }
+      else
+        srest.push_back(e);
+    if (hits != 1)
+      R.violation(hits == 0 ? "set-adds-member" : "set-no-duplicate", cls,
+                  "Set(" + vf::show(k, 60) + ") on the extracted " + show_list(got) + " gave " + show_list(sgot) + "; " + hshow);
+    else if (srest != rest)
+      R.violation("set-result", cls + ":others", "Set(" + vf::show(k, 60) + ") on the extracted " + show_list(got) + " gave " + show_list(sgot) + "; " + hshow);
+    auto db   = out_b->Delete(k);
+    List dgot = entries(*db);
+    if (dgot != rest)
+      R.violation("delete-result", cls, "Delete(" + vf::show(k, 60) + ") on the extracted " + show_list(got) + " gave " + show_list(dgot) + "; " + hshow);
+    if (entries(*out_b) != got)
+      R.violation("original-unchanged", "extracted-after-set-delete", hshow);
+  }
 }
 
 static std::string simple_member(Rng &r, size_t i)
